@@ -14,6 +14,10 @@ impl IndexHashCalculator {
 }
 
 pub(crate) fn clean_file(path: impl AsRef<Path>, recreate_index_file: bool) -> Result<()> {
+    #[cfg(feature = "verif")]
+    if recreate_index_file && path.as_ref().exists() {
+        crate::verif::tap::path_op(crate::verif::tap::Kind::Truncate, path.as_ref(), None)?;
+    }
     if !path.as_ref().exists() {
         Ok(())
     } else if recreate_index_file {
